@@ -109,7 +109,7 @@ func viewOfDir(d *go9p.Dir) view {
 }
 
 // qidDiff compares the type bits and the path of a qid with the local object.
-func qidDiff(qtype uint8, qpath uint64, fi os.FileInfo) []string {
+func (x *executor) qidDiff(qtype uint8, qpath uint64, fi os.FileInfo) []string {
 	var d []string
 	st := fi.Sys().(*syscall.Stat_t)
 	isDir, isLnk := fi.IsDir(), fi.Mode()&os.ModeSymlink != 0
@@ -120,21 +120,21 @@ func qidDiff(qtype uint8, qpath uint64, fi os.FileInfo) []string {
 		d = append(d, fmt.Sprintf("qid.type %#x: QTSYMLINK bit wrong (local object is a symlink: %v)", qtype, isLnk))
 	}
 	if qpath != st.Ino {
-		d = append(d, fmt.Sprintf("qid.path %d != inode %d", qpath, st.Ino))
+		d = append(d, fmt.Sprintf("qid.path is %s, the local object is %s", x.inoName(qpath), x.inoName(st.Ino)))
 	}
 	return d
 }
 
 // statDiff compares a stat record with os.Lstat(p). An empty result means
 // agreement on everything the property names.
-func statDiff(v view, p string, isRoot, dotu bool) []string {
+func (x *executor) statDiff(v view, p string, isRoot, dotu bool) []string {
 	fi, err := os.Lstat(p)
 	if err != nil {
 		return []string{fmt.Sprintf("local path %q does not exist (%v) but a stat record was returned", p, err)}
 	}
 	st := fi.Sys().(*syscall.Stat_t)
 	isDir, isLnk := fi.IsDir(), fi.Mode()&os.ModeSymlink != 0
-	d := qidDiff(v.QType, v.QPath, fi)
+	d := x.qidDiff(v.QType, v.QPath, fi)
 	if v.Mode&0o777 != uint32(fi.Mode().Perm()) {
 		d = append(d, fmt.Sprintf("permission bits %#o != local %#o", v.Mode&0o777, uint32(fi.Mode().Perm())))
 	}
@@ -267,6 +267,10 @@ type executor struct {
 	model   map[uint32]string // fid -> host path it must designate
 	wire    *xport.End // server end of the go9p client's connection
 	wireOff int
+	scratch string
+	inodes  map[uint64]int
+	srv     *go9p.Ufs
+	msize   uint32
 }
 
 // shortPath renders a host path relative to the root; long elements are
@@ -311,7 +315,18 @@ func qnames(names [][]byte) string {
 	return b.String()
 }
 
-func rpcErr(what string, err error) error {
+// lazy is a description that is rendered only when a message is printed.
+type str string
+
+func (s str) String() string { return string(s) }
+
+type lazy func() string
+
+func (l lazy) String() string { return l() }
+
+func (l lazy) plus(s string) lazy { return func() string { return l() + s } }
+
+func rpcErr(what fmt.Stringer, err error) error {
 	if errors.Is(err, rawc.ErrTimeout) {
 		return infraf("%s: %v", what, err)
 	}
@@ -320,61 +335,99 @@ func rpcErr(what string, err error) error {
 
 // RunCase executes one case; a non-nil error that is not an *infraError is a
 // violation of the property.
-func RunCase(c *Case) (verr error) {
+// setup builds the tree, starts Ufs on it and attaches the raw client as fid 0.
+// The executor is returned even on error (when there is something to clean up).
+func setup(c *Case) (*executor, error) {
 	dir, err := os.MkdirTemp("/tmp", "c16-")
 	if err != nil {
-		return infraf("MkdirTemp: %v", err)
+		return nil, infraf("MkdirTemp: %v", err)
 	}
-	defer os.RemoveAll(dir)
 	root := dir + "/r"
-	paths, err := buildTree(c, root)
+	x := &executor{c: c, scratch: dir, root: root, model: map[uint32]string{}}
+	x.paths, err = buildTree(c, root)
 	if err != nil {
-		return err
+		return x, err
 	}
 	tb, _ := json.Marshal(c.Tree)
-	x := &executor{c: c, root: root, paths: paths, treeH: hx.Hash(tb), model: map[uint32]string{}}
+	x.treeH = hx.Hash(tb)
 	hx.ExtraAdd("trees", 1)
 
 	msize := c.Msize
 	if msize < 8192 {
 		msize = 8192
 	}
+	x.msize = msize
 	u := ufsrv.Start(root, c.SrvDotu, msize+go9p.IOHDRSZ)
+	x.srv = u
 
-	// ---- raw client ----
 	x.raw = ufsrv.Raw(u, "c16-raw")
-	defer x.raw.Close()
 	ver := "9P2000"
 	if c.CliDotu {
 		ver = "9P2000.u"
 	}
 	r, err := x.raw.Version(msize, ver)
 	if err != nil {
-		return rpcErr("Tversion", err)
+		return x, rpcErr(str("Tversion"), err)
 	}
 	if r.Type != ref9p.Rversion {
-		return fmt.Errorf("Tversion(%d,%q) answered %s %q", msize, ver, ref9p.TypeName(r.Type), r.Ename)
+		return x, fmt.Errorf("Tversion(%d,%q) answered %s %q", msize, ver, ref9p.TypeName(r.Type), r.Ename)
 	}
 	x.dotu = x.raw.Dotu
 	if x.dotu != (c.SrvDotu && c.CliDotu) {
-		return fmt.Errorf("negotiated dialect .u=%v for server .u=%v, client .u=%v", x.dotu, c.SrvDotu, c.CliDotu)
+		return x, fmt.Errorf("negotiated dialect .u=%v for server .u=%v, client .u=%v", x.dotu, c.SrvDotu, c.CliDotu)
 	}
 	r, err = x.raw.Attach(0, ref9p.NOFID, "root", "", 0)
 	if err != nil {
-		return rpcErr("Tattach", err)
+		return x, rpcErr(str("Tattach"), err)
 	}
 	if r.Type != ref9p.Rattach {
-		return fmt.Errorf("Tattach answered %s %q", ref9p.TypeName(r.Type), r.Ename)
+		return x, fmt.Errorf("Tattach answered %s %q", ref9p.TypeName(r.Type), r.Ename)
 	}
 	rfi, err := os.Lstat(root)
 	if err != nil {
-		return infraf("lstat root: %v", err)
+		return x, infraf("lstat root: %v", err)
 	}
 	hx.Eval()
-	if d := qidDiff(r.Qid.Type, r.Qid.Path, rfi); len(d) > 0 {
-		return fmt.Errorf("Rattach qid disagrees with the exported root: %s", strings.Join(d, "; "))
+	if d := x.qidDiff(r.Qid.Type, r.Qid.Path, rfi); len(d) > 0 {
+		return x, fmt.Errorf("Rattach qid disagrees with the exported root: %s", strings.Join(d, "; "))
 	}
 	x.model[0] = root
+	return x, nil
+}
+
+// inoName names an inode by the first tree node that has it, so that messages
+// are the same in every run of a case (rapid's shrinker requires that).
+func (x *executor) inoName(ino uint64) string {
+	if x.inodes == nil {
+		x.inodes = map[uint64]int{}
+		for i := len(x.paths) - 1; i >= 0; i-- {
+			if fi, err := os.Lstat(x.paths[i]); err == nil {
+				x.inodes[fi.Sys().(*syscall.Stat_t).Ino] = i
+			}
+		}
+	}
+	if i, ok := x.inodes[ino]; ok {
+		return fmt.Sprintf("the inode of node %d %s", i, shortPath(x.root, x.paths[i]))
+	}
+	return "an inode outside the tree"
+}
+
+func (x *executor) close() {
+	if x.raw != nil {
+		x.raw.Close()
+	}
+	_ = os.RemoveAll(x.scratch)
+}
+
+func RunCase(c *Case) (verr error) {
+	x, err := setup(c)
+	if x != nil {
+		defer x.close()
+	}
+	if err != nil {
+		return err
+	}
+	u, msize := x.srv, x.msize
 
 	for i := range c.Ops {
 		if err := x.doOp(i, &c.Ops[i]); err != nil {
@@ -425,7 +478,7 @@ func (x *executor) doOp(i int, op *Op) error {
 			return nil
 		}
 		hx.Eval()
-		return x.expectStat(fmt.Sprintf("op %d: Tstat(fid %d)", i, op.Fid), op.Fid)
+		return x.expectStat(lazy(func() string { return fmt.Sprintf("op %d: Tstat(fid %d)", i, op.Fid) }), op.Fid)
 	case "clunk":
 		if _, ok := x.model[op.Fid]; !ok || op.Fid == 0 {
 			hx.Label("op skipped (fid not live)")
@@ -433,7 +486,7 @@ func (x *executor) doOp(i int, op *Op) error {
 		}
 		r, err := x.raw.Clunk(op.Fid)
 		if err != nil {
-			return rpcErr("Tclunk", err)
+			return rpcErr(str("Tclunk"), err)
 		}
 		if r.Type != ref9p.Rclunk {
 			return fmt.Errorf("op %d: Tclunk(fid %d) of a live fid answered %s %q", i, op.Fid, ref9p.TypeName(r.Type), r.Ename)
@@ -446,26 +499,31 @@ func (x *executor) doOp(i int, op *Op) error {
 
 // expectStat sends Tstat on fid and compares: a fid the model knows must stat
 // as its host path, any other fid must be refused.
-func (x *executor) expectStat(what string, fid uint32) error {
+func (x *executor) expectStat(what fmt.Stringer, fid uint32) error {
+	_, err := x.statFid(what, fid)
+	return err
+}
+
+func (x *executor) statFid(what fmt.Stringer, fid uint32) (*ref9p.Stat, error) {
 	r, err := x.raw.Stat(fid)
 	if err != nil {
-		return rpcErr(what, err)
+		return nil, rpcErr(what, err)
 	}
 	p, live := x.model[fid]
 	if !live {
 		if r.Type != ref9p.Rerror {
-			return fmt.Errorf("%s: the fid must not exist, but Tstat answered %s (name %q, qid.path %d)", what, ref9p.TypeName(r.Type), r.Stat.Name, r.Stat.Qid.Path)
+			return nil, fmt.Errorf("%s: the fid must not exist, but Tstat answered %s (name %q, qid.path %s)", what, ref9p.TypeName(r.Type), r.Stat.Name, x.inoName(r.Stat.Qid.Path))
 		}
-		return nil
+		return nil, nil
 	}
 	if r.Type != ref9p.Rstat {
-		return fmt.Errorf("%s: fid designates %s, Tstat answered %s %q", what, shortPath(x.root, p), ref9p.TypeName(r.Type), r.Ename)
+		return nil, fmt.Errorf("%s: fid designates %s, Tstat answered %s %q", what, shortPath(x.root, p), ref9p.TypeName(r.Type), r.Ename)
 	}
-	if d := statDiff(viewOfStat(&r.Stat), p, p == x.root, x.dotu); len(d) > 0 {
-		return fmt.Errorf("%s: stat disagrees with os.Lstat(%s) (.u=%v): %s", what, shortPath(x.root, p), x.dotu, strings.Join(d, "; "))
+	if d := x.statDiff(viewOfStat(&r.Stat), p, p == x.root, x.dotu); len(d) > 0 {
+		return nil, fmt.Errorf("%s: stat disagrees with os.Lstat(%s) (.u=%v): %s", what, shortPath(x.root, p), x.dotu, strings.Join(d, "; "))
 	}
 	x.noteObject(p)
-	return nil
+	return &r.Stat, nil
 }
 
 func (x *executor) noteObject(p string) {
@@ -540,7 +598,9 @@ func (x *executor) doWalk(i int, op *Op) error {
 	}
 	k := len(infos)
 	fromSymlink := startFi.Mode()&os.ModeSymlink != 0
-	what := fmt.Sprintf("op %d: Twalk(fid %d at %s, newfid %d, %s) .u=%v", i, op.Fid, shortPath(x.root, P), op.Newfid, qnames(op.Names), x.dotu)
+	what := lazy(func() string {
+		return fmt.Sprintf("op %d: Twalk(fid %d at %s, newfid %d, %s) .u=%v", i, op.Fid, shortPath(x.root, P), op.Newfid, qnames(op.Names), x.dotu)
+	})
 
 	hx.Eval()
 	outcome := "complete"
@@ -582,7 +642,7 @@ func (x *executor) doWalk(i int, op *Op) error {
 			return fmt.Errorf("%s: Rwalk carries %d qids, %d leading elements exist locally", what, len(r.Wqid), k)
 		}
 		for j, q := range r.Wqid {
-			if d := qidDiff(q.Type, q.Path, infos[j]); len(d) > 0 {
+			if d := x.qidDiff(q.Type, q.Path, infos[j]); len(d) > 0 {
 				return fmt.Errorf("%s: qid %d of Rwalk disagrees with the local object: %s", what, j, strings.Join(d, "; "))
 			}
 		}
@@ -597,11 +657,11 @@ func (x *executor) doWalk(i int, op *Op) error {
 
 	// afterwards: fid (and newfid) must stat as the model says — the target only
 	// after a complete walk, otherwise both exactly as before
-	err = x.expectStat(what+" then Tstat(fid)", op.Fid)
+	err = x.expectStat(what.plus(" then Tstat(fid)"), op.Fid)
 	if err != nil && !isInfra(err) && inplace && k >= 1 && k < n {
 		// signature of the listed finding: the fid now designates the walked prefix
 		r2, e2 := x.raw.Stat(op.Fid)
-		moved := e2 == nil && r2.Type == ref9p.Rstat && len(statDiff(viewOfStat(&r2.Stat), cur, cur == x.root, x.dotu)) == 0
+		moved := e2 == nil && r2.Type == ref9p.Rstat && len(x.statDiff(viewOfStat(&r2.Stat), cur, cur == x.root, x.dotu)) == 0
 		if moved && hx.IsKnown(idInplace) {
 			hx.Known(idInplace, fmt.Sprintf("%s: Rwalk with %d of %d qids; afterwards the fid stats as %s", what, k, n, shortPath(x.root, cur)))
 			x.model[op.Fid] = cur // follow the server so that the search goes on behind the finding
@@ -614,22 +674,45 @@ func (x *executor) doWalk(i int, op *Op) error {
 		return err
 	}
 	if !inplace {
-		if err := x.expectStat(what+" then Tstat(newfid)", op.Newfid); err != nil {
+		if err := x.expectStat(what.plus(" then Tstat(newfid)"), op.Newfid); err != nil {
 			return err
 		}
 	}
 	return nil
 }
 
-// visitAll walks to every node of the tree by its real path (Twalks of at most
-// 16 elements, continuing in place), stats it and checks that qid paths are
-// equal exactly for equal inodes.
+// visitAll stats every node of the tree. Each node is reached with one Twalk
+// from a fid kept on its parent directory; in addition the deepest node and the
+// first nodes at depths 16, 17, 32 and 33 are reached by their whole path from
+// the root (Twalks of at most 16 elements, continuing in place). Qid paths
+// must be equal exactly for equal inodes.
 func (x *executor) visitAll() error {
-	const tmp = 0x00C16000
+	const base = 0x00C16000
+	const tmp = 0x00C15FFF
 	byIno := map[uint64]uint64{}
 	byQid := map[uint64]uint64{}
 	var dev0 uint64
-	for i := range x.c.Tree {
+	depth := make([]int, len(x.c.Tree))
+	full := map[int]bool{}
+	deepest := 0
+	seen := map[int]bool{}
+	for i := 1; i < len(x.c.Tree); i++ {
+		depth[i] = depth[x.c.Tree[i].Parent] + 1
+		if depth[i] > depth[deepest] {
+			deepest = i
+		}
+		switch d := depth[i]; d {
+		case 16, 17, 32, 33:
+			if !seen[d] {
+				seen[d] = true
+				full[i] = true
+			}
+		}
+	}
+	full[deepest] = true
+	var dirFids []uint32
+
+	check := func(what lazy, i int, fid uint32) error {
 		p := x.paths[i]
 		fi, err := os.Lstat(p)
 		if err != nil {
@@ -641,55 +724,114 @@ func (x *executor) visitAll() error {
 		} else if uint64(st.Dev) != dev0 {
 			return infraf("tree spans more than one device")
 		}
-		// element list from the root
+		x.model[fid] = p
+		rs, err := x.statFid(what.plus(": Tstat"), fid)
+		delete(x.model, fid)
+		if err != nil {
+			return err
+		}
+		q := rs.Qid.Path
+		if o, ok := byIno[st.Ino]; ok && o != q {
+			return fmt.Errorf("%s: %s was reported with two different qid paths", what, x.inoName(st.Ino))
+		}
+		if o, ok := byQid[q]; ok && o != st.Ino {
+			return fmt.Errorf("%s: %s and %s coexist but share a qid path", what, x.inoName(o), x.inoName(st.Ino))
+		}
+		byIno[st.Ino], byQid[q] = q, st.Ino
+		return nil
+	}
+	clunk := func(what lazy, fid uint32) error {
+		if c, err := x.raw.Clunk(fid); err != nil || c.Type != ref9p.Rclunk {
+			return rpcErr(what.plus(": Tclunk"), fmt.Errorf("%v %v", err, c))
+		}
+		return nil
+	}
+
+	for i := range x.c.Tree {
+		i := i
+		p := x.paths[i]
+		what := lazy(func() string { return fmt.Sprintf("visit node %d %s .u=%v", i, shortPath(x.root, p), x.dotu) })
+		hx.Eval()
+		fid := uint32(base + i)
+		var r *ref9p.Msg
+		var err error
+		if i == 0 {
+			r, err = x.raw.Walk(0, fid)
+		} else {
+			r, err = x.raw.Walk(uint32(base+x.c.Tree[i].Parent), fid, string(x.c.Tree[i].Name))
+		}
+		if err != nil {
+			return rpcErr(what, err)
+		}
+		want := 1
+		if i == 0 {
+			want = 0
+		}
+		if r.Type != ref9p.Rwalk || len(r.Wqid) != want {
+			return fmt.Errorf("%s: Twalk of the existing name from the fid on its parent answered %s with %d qids %q", what, ref9p.TypeName(r.Type), len(r.Wqid), r.Ename)
+		}
+		if want == 1 {
+			fi, err := os.Lstat(p)
+			if err != nil {
+				return infraf("node %d vanished: %v", i, err)
+			}
+			if d := x.qidDiff(r.Wqid[0].Type, r.Wqid[0].Path, fi); len(d) > 0 {
+				return fmt.Errorf("%s: qid of Rwalk disagrees with the local object: %s", what, strings.Join(d, "; "))
+			}
+		}
+		if err := check(what, i, fid); err != nil {
+			return err
+		}
+		if x.c.Tree[i].Kind == "d" {
+			dirFids = append(dirFids, fid)
+		} else if err := clunk(what, fid); err != nil {
+			return err
+		}
+		hx.Label(fmt.Sprintf("visit depth=%s", depthClass(depth[i])))
+
+		if !full[i] || i == 0 {
+			continue
+		}
+		// the same node by its whole path from the root
+		hx.Eval()
 		var elems []string
 		for j := i; j > 0; j = x.c.Tree[j].Parent {
 			elems = append([]string{string(x.c.Tree[j].Name)}, elems...)
 		}
-		what := fmt.Sprintf("visit node %d %s .u=%v", i, shortPath(x.root, p), x.dotu)
-		hx.Eval()
+		whatFull := lazy(func() string {
+			return fmt.Sprintf("visit node %d by its whole path (%d elements) %s .u=%v", i, len(elems), shortPath(x.root, p), x.dotu)
+		})
 		src := uint32(0)
-		rest := elems
-		for first := true; first || len(rest) > 0; first = false {
+		for rest := elems; len(rest) > 0; {
 			m := len(rest)
 			if m > 16 {
 				m = 16
 			}
 			r, err := x.raw.Walk(src, tmp, rest[:m]...)
 			if err != nil {
-				return rpcErr(what, err)
+				return rpcErr(whatFull, err)
 			}
 			if r.Type != ref9p.Rwalk || len(r.Wqid) != m {
-				return fmt.Errorf("%s: Twalk(fid %d, newfid %d) of %d existing elements answered %s with %d qids %q", what, src, tmp, m, ref9p.TypeName(r.Type), len(r.Wqid), r.Ename)
+				return fmt.Errorf("%s: Twalk(fid %d, newfid %d) of %d existing elements answered %s with %d qids %q", whatFull, src, tmp, m, ref9p.TypeName(r.Type), len(r.Wqid), r.Ename)
 			}
 			rest = rest[m:]
 			src = tmp
 		}
-		x.model[tmp] = p
-		err = x.expectStat(what+": Tstat", tmp)
-		delete(x.model, tmp)
-		if err != nil {
+		if err := check(whatFull, i, tmp); err != nil {
 			return err
 		}
-		rs, err := x.raw.Stat(tmp)
-		if err != nil || rs.Type != ref9p.Rstat {
-			return rpcErr(what+": second Tstat", fmt.Errorf("%v %v", err, rs))
+		if err := clunk(whatFull, tmp); err != nil {
+			return err
 		}
-		q := rs.Stat.Qid.Path
-		if o, ok := byIno[st.Ino]; ok && o != q {
-			return fmt.Errorf("%s: same inode %d reported with qid paths %d and %d", what, st.Ino, o, q)
-		}
-		if o, ok := byQid[q]; ok && o != st.Ino {
-			return fmt.Errorf("%s: coexisting inodes %d and %d share qid path %d", what, o, st.Ino, q)
-		}
-		byIno[st.Ino], byQid[q] = q, st.Ino
 		if len(elems) > 16 {
 			hx.NonTrivial("visit-deep", x.treeH, i, x.dotu)
 		}
-		if c, err := x.raw.Clunk(tmp); err != nil || c.Type != ref9p.Rclunk {
-			return rpcErr(what+": Tclunk", fmt.Errorf("%v %v", err, c))
+		hx.Label(fmt.Sprintf("visit by whole path depth=%s", depthClass(len(elems))))
+	}
+	for _, f := range dirFids {
+		if err := clunk(lazy(func() string { return "visit: releasing directory fids" }), f); err != nil {
+			return err
 		}
-		hx.Label(fmt.Sprintf("visit depth=%s", depthClass(len(elems))))
 	}
 	return nil
 }
@@ -752,7 +894,9 @@ func (x *executor) doCli(clnt *go9p.Clnt, i int, op *CliOp) error {
 		}
 	}
 	path := cliPath(op)
-	what := fmt.Sprintf("client op %d: %s(%d elements, style %d, %s) .u=%v", i, op.Kind, len(op.Elems), op.Style, shortPath(x.root, local), dotu)
+	what := lazy(func() string {
+		return fmt.Sprintf("client op %d: %s(%d elements, style %d, %s) .u=%v", i, op.Kind, len(op.Elems), op.Style, shortPath(x.root, local), dotu)
+	})
 	hx.Eval()
 	hx.Label(fmt.Sprintf("client %s depth=%s exists=%v", op.Kind, depthClass(len(op.Elems)), exists))
 	if len(op.Elems) > 16 {
@@ -771,7 +915,7 @@ func (x *executor) doCli(clnt *go9p.Clnt, i int, op *CliOp) error {
 		d, err := clnt.FStat(path)
 		if !exists {
 			if err == nil {
-				return fmt.Errorf("%s: the local path does not exist but FStat returned name %q qid.path %d", what, d.Name, d.Qid.Path)
+				return fmt.Errorf("%s: the local path does not exist but FStat returned name %q, qid.path %s", what, d.Name, x.inoName(d.Qid.Path))
 			}
 			return nil
 		}
@@ -779,7 +923,7 @@ func (x *executor) doCli(clnt *go9p.Clnt, i int, op *CliOp) error {
 			_, e := refused(err)
 			return e
 		}
-		if df := statDiff(viewOfDir(d), local, local == x.root, dotu); len(df) > 0 {
+		if df := x.statDiff(viewOfDir(d), local, local == x.root, dotu); len(df) > 0 {
 			return fmt.Errorf("%s: FStat disagrees with os.Lstat: %s", what, strings.Join(df, "; "))
 		}
 		x.noteObjectCli(local)
@@ -787,7 +931,7 @@ func (x *executor) doCli(clnt *go9p.Clnt, i int, op *CliOp) error {
 		fid, err := clnt.FWalk(path)
 		if !exists {
 			if err == nil {
-				return fmt.Errorf("%s: the local path does not exist but FWalk succeeded (qid.path %d)", what, fid.Qid.Path)
+				return fmt.Errorf("%s: the local path does not exist but FWalk succeeded (qid.path %s)", what, x.inoName(fid.Qid.Path))
 			}
 			return nil
 		}
@@ -795,14 +939,14 @@ func (x *executor) doCli(clnt *go9p.Clnt, i int, op *CliOp) error {
 			_, e := refused(err)
 			return e
 		}
-		if df := qidDiff(fid.Qid.Type, fid.Qid.Path, fi); len(df) > 0 {
+		if df := x.qidDiff(fid.Qid.Type, fid.Qid.Path, fi); len(df) > 0 {
 			return fmt.Errorf("%s: Fid.Qid after FWalk disagrees with the local object: %s", what, strings.Join(df, "; "))
 		}
 		d, err := clnt.Stat(fid)
 		if err != nil {
 			return fmt.Errorf("%s: Stat on the walked fid failed: %v", what, err)
 		}
-		if df := statDiff(viewOfDir(d), local, local == x.root, dotu); len(df) > 0 {
+		if df := x.statDiff(viewOfDir(d), local, local == x.root, dotu); len(df) > 0 {
 			return fmt.Errorf("%s: Stat on the walked fid disagrees with os.Lstat: %s", what, strings.Join(df, "; "))
 		}
 		if err := clnt.Clunk(fid); err != nil {
@@ -826,7 +970,7 @@ func (x *executor) doCli(clnt *go9p.Clnt, i int, op *CliOp) error {
 			_, e := refused(err)
 			return e
 		}
-		if df := qidDiff(f.Fid.Qid.Type, f.Fid.Qid.Path, fi); len(df) > 0 {
+		if df := x.qidDiff(f.Fid.Qid.Type, f.Fid.Qid.Path, fi); len(df) > 0 {
 			return fmt.Errorf("%s: qid of the opened file disagrees with the local object: %s", what, strings.Join(df, "; "))
 		}
 		if fi.Mode().IsRegular() {
